@@ -34,6 +34,7 @@ type CutCase struct {
 	Go         Parsed `json:"go"`
 	ErrHdr     string `json:"err_hdr"`
 	HarnessErr string `json:"harness_err"`
+	Pipelined  bool   `json:"pipelined"` // the client sent a second request right behind the first one
 	Retried    bool   `json:"retried"` // the first attempt ran into the client's time limit (machine under load) and the case was run again
 }
 
@@ -124,6 +125,18 @@ func CutCases(tier string) []CutCase {
 			}
 		}
 	}
+	// a second request pipelined behind the one whose reply is cut: after the failure nothing of a second response may follow
+	for _, framing := range []string{"length", "chunked", "close"} {
+		reply, hl := cutReply(framing)
+		for _, end := range []string{"fin", "rst"} {
+			for _, k := range []int{0, hl / 2, hl, hl + 1, hl + 30, len(reply) - 1, len(reply)} {
+				out = append(out, CutCase{
+					Name:  fmt.Sprintf("cut-direct-%s-HTTP/1.1-%s-%d-pipelined", framing, end, k),
+					Route: "direct", Framing: framing, Proto: "HTTP/1.1", Method: "GET", K: k, End: end, Pipelined: true,
+				})
+			}
+		}
+	}
 	for _, route := range []string{"tls", "mitm"} {
 		for _, framing := range []string{"length", "chunked", "close"} {
 			reply, hl := cutReply(framing)
@@ -180,6 +193,14 @@ func NewCutRig() (*CutRig, error) {
 		p := path[1]
 		if i := strings.Index(p, "/cut/"); i >= 0 {
 			p = p[i+5:]
+		}
+		if strings.Contains(p, "/second") {
+			c.Write([]byte("HTTP/1.1 200 OK\r\nContent-Length: 15\r\nX-Second: yes\r\n\r\nSECOND-RESPONSE"))
+			buf := make([]byte, 256)
+			c.SetReadDeadline(time.Now().Add(2 * time.Second))
+			c.Read(buf)
+			c.Close()
+			return
 		}
 		parts := strings.Split(p, "/")
 		if len(parts) < 3 {
@@ -350,11 +371,39 @@ func (cr *CutRig) Run(c *CutCase) {
 		conn = tc
 		req = fmt.Sprintf("%s /cut/%s/%d/%s %s\r\nHost: %s\r\n\r\n", c.Method, c.Framing, c.K, c.End, c.Proto, cr.originTLS.Addr)
 	}
+	if c.Pipelined {
+		req += reqLine("GET", fmt.Sprintf("http://%s/second", cr.origin.Addr), "HTTP/1.1")
+	}
 	if _, err := conn.Write([]byte(req)); err != nil {
 		c.HarnessErr = "client write: " + err.Error()
 		return
 	}
 	co := ReadResponse(conn, false, c.timeout())
+	if c.Pipelined && co.End == "open" && co.P.Verdict == VComplete {
+		// the first reply is complete and the connection is still open: what follows belongs to the second exchange.
+		// Keep only the first message for the checker; the second must be the second origin reply, whole.
+		first := co.Raw[:len(co.Raw)-co.P.RestLen]
+		rest := append([]byte(nil), co.Raw[len(co.Raw)-co.P.RestLen:]...)
+		second := ParseResponse(rest, false, false)
+		deadline := time.Now().Add(3 * time.Second)
+		buf := make([]byte, 4096)
+		for second.Verdict == VIncomplete && time.Now().Before(deadline) {
+			conn.SetReadDeadline(deadline)
+			n, err := conn.Read(buf)
+			rest = append(rest, buf[:n]...)
+			second = ParseResponse(rest, err != nil && EndKind(err) == "eof", false)
+			if err != nil {
+				break
+			}
+		}
+		if _, isErr := co.P.Get("X-Forwarder-Error"); !isErr || true {
+			if second.Verdict != VComplete || second.Status != 200 || string(second.Body) != "SECOND-RESPONSE" {
+				c.HarnessErr = fmt.Sprintf("second pipelined request not answered with the second origin reply: %s %d %q", second.Verdict, second.Status, truncate(rest, 60))
+			}
+		}
+		co.Raw, co.RawLen = first, len(first)
+		co.P = ParseResponse(first, false, false)
+	}
 	c.Raw, c.RawLen, c.ClientEnd, c.Go = co.Raw, co.RawLen, co.End, co.P
 	c.ErrHdr, _ = co.P.Get("X-Forwarder-Error")
 	if co.End == "timeout" {
